@@ -6,7 +6,7 @@ export GOFLAGS=-mod=mod GOPROXY=off GOSUMDB=off GOTOOLCHAIN=local
 mkdir -p out evidence harness/bin
 python3 tools/assemble.py
 python3 tools/assemble.py
-( cd coq && coq_makefile -f _CoqProject -o Makefile >/dev/null && timeout 3400 make -j16 2>&1 | tail -5 )
+( cd coq && coq_makefile -f _CoqProject -o Makefile >/dev/null && rm -f .Makefile.d && { timeout 3400 make -k -j16 > ../out/setup-make.log 2>&1 && echo 'coq build ok' || { echo 'coq build FAILED for some files (each check rebuilds its own closure):'; grep -B2 -A6 'Error' ../out/setup-make.log | head -40; }; } )
 python3 - <<'PY'
 import sys; sys.path.insert(0,'tools')
 import vlib
